@@ -160,6 +160,12 @@ def cases_for(p, decl) -> list:
             if math.isinf(x) or math.isnan(x):
                 continue
             out.append((label, repr(float(x)), rat(float(x))))
+        # -1 and 0 are favourite 'not provided' markers: unless the declaration itself makes one of them the default (the documented
+        # sentinel) they are ordinary out-of-range values
+        dflt = float(p.DefaultValue) if isinstance(p.DefaultValue, (int, float)) else None
+        for label, x in (('minus_one', -1.0), ('zero', 0.0)):
+            if x < lo and dflt != x and num(p.value) != x:      # (declared default or initial working value = the documented sentinel)
+                out.append((label, repr(x) if label == 'zero' else '-1', rat(x)))
         pu = getattr(p.PreferredUnits, 'value', None)
         alt = UNIT_ALT.get(pu)
         if alt and abs(hi) < 1e12 and hi > 0:
